@@ -5,6 +5,14 @@ ROOT = os.path.dirname(os.path.dirname(os.path.abspath(__file__)))
 
 CLAIMED = {
  # id: (category, text, note, technique, design_ref)
+ "C10": ("exploration",
+         "Seeded simulation of a t-digest cluster (1-16 nodes, k 10..=500): value streams of ten shapes incl. NaN/inf to be ignored, a PRNG-drawn merge DAG (borrowed digests, images over an exactly-once network with reorder/loss, freeze->unfreeze), framed checkpoints with crash/restart and WAL replay, and foreign digests with heavy first/last/single centroids in the native f64/f32 and reference-implementation encodings; after every merge, restart and foreign contribution every reached digest state is checked: total_weight, exact min/max, rank and quantile monotone and in range on dense grids, exact at the extremes, rank(quantile(q)) within the digest's own resolution, cdf/pmf consistent with rank for split lists of length 0,1,2,17, frozen digest identical.",
+         "Trusted: exact multiset model, independent t-digest codec (DESIGN.md Appendix A). The deciding oracle is per state; the simulator contributes merge orders, restarts and foreign images. One narrowly identified sub-class is a recorded finding (known_findings.txt).",
+         "deterministic simulation: merge DAG + crash/restart + foreign-writer images, per-state invariants vs exact multiset", "DESIGN.md §4 C10"),
+ "C15": ("exploration",
+         "Same simulated t-digest cluster with the size/accuracy oracle: at every power-of-two stream prefix and after every merge/restart the centroid list parsed from the image has <= 2k+30 centroids (bounded image size), weights sum to total_weight, means are sorted inside [min,max], and for nodes with exact ancestry the rank error against the sorted data stays within C*q(1-q)Z/2k + 1.5/n (C = 12, calibrated 3x the largest ratio 3.81 seen over 40 000 thorough runs) and within one sample at the extremes, for streamed and merged digests alike (k taken as the smallest in the ancestry).",
+         "Trusted: sorted exact data; calibration constant frozen in sim/src/scen/c10.rs. Streams spanning > 30 orders of magnitude are a recorded finding (inherent to the algorithm).",
+         "deterministic simulation: merge DAG + restarts, image size / conservation / rank error vs exact data at every power-of-two prefix", "DESIGN.md §4 C10 and C15"),
  "C08": ("exploration",
          "Seeded simulation of a Count-Min cluster: 2-4 nodes of one counter type (all eight) and shape take weighted update bursts kept inside the counter type, merge each other in memory or as images over an exactly-once network (reorder, loss/retransmit), and for unsigned types run halve/decay epochs while contributions are in flight; total_weight is checked after every update, and after every merge/epoch/checkpoint the serialized table is compared with a model table built from the reference MurmurHash3 and row-seed derivation, estimate >= truth / <= total and lb <= est <= ub for every item and for never-inserted probes, estimate >= scaled truth after epochs; the confidence clause is evaluated per batch with a Hoeffding margin at 1e-9.",
          "Trusted: exact truth map and model table (reference hashes validated by C16). The confidence clause is one-sided and loose (the theory's bound is Markov's).",
